@@ -43,14 +43,66 @@ def has_propfail(obs):
     return "PROPFAIL" in obs or "HANG" in obs
 
 
+def dep_slice(case):
+    """header | ops...: keep the last op and, transitively, the ops that bound the objects it is called on."""
+    parts = case.split(" | ")
+    head, ops = parts[0], parts[1:]
+    if not ops:
+        return case
+    def obj_bind(op):
+        f = op.split(" ~ ")[0].split(" ^ ")[0].split()
+        try:
+            return int(f[0][1:]), int(f[2])
+        except (IndexError, ValueError):
+            return None, None
+    need, keep = set(), [len(ops) - 1]
+    need.add(obj_bind(ops[-1])[0])
+    for i in range(len(ops) - 2, -1, -1):
+        o, b = obj_bind(ops[i])
+        if b in need and b != 0:
+            keep.append(i)
+            need.discard(b)
+            need.add(o)
+    return " | ".join([head] + [ops[i] for i in sorted(keep)])
+
+
 def report(ctx, st, mm, what_model, what_prop, known_swallow=None):
     """Turn mismatching histories into violations: at most two of each kind, shrunk."""
     prop = [x for x in mm if has_propfail(x[3])]
     other = [x for x in mm if not has_propfail(x[3])]
+    # the strongest witnesses first: the base changed
+    prop.sort(key=lambda x: (0 if "base-changed" in x[3] else 1, len(x[1])))
     found = False
     for group, is_prop in ((prop, True), (other, False)):
         for (i, c, m, o) in group[:1]:
-            keep = (lambda x: has_propfail(x[3])) if is_prop else None
+            keep = None
+            if is_prop:
+                mark = "base-changed" if "base-changed" in o else ("PROPFAIL" if "PROPFAIL" in o else "HANG")
+                keep = (lambda x, mark=mark: mark in x[3])
+                # the failure shows at one step: everything after it is irrelevant
+                cs, os_ = c.split(" | "), o.split(" | ")
+                for j, part in enumerate(os_):
+                    if mark in part and 0 < j < len(cs):
+                        c = " | ".join(cs[:j + 1])
+                        break
+            else:
+                cs, ms, os_ = c.split(" | "), m.split(" | "), o.split(" | ")
+                for j, (a, b) in enumerate(zip(ms, os_)):
+                    if a != b and 0 < j < len(cs):
+                        c = " | ".join(cs[:j + 1])
+                        break
+            # first candidate: the failing call and the calls that produced the objects it uses
+            sl = dep_slice(c)
+            # under a fault plan "F:k" the slice has fewer invocations of F: also try it with k = 0
+            parts = sl.split(" | ")
+            sl0 = " | ".join([re.sub(r"(Fn\w+):\d+", r"\1:0", parts[0])] + parts[1:])
+            for cand in ([sl, sl0] if sl0 != sl else [sl]):
+                if cand == c:
+                    continue
+                mm1 = ctx.stream(st["name"] + "-shrink", st["harness"], st["driver"], replay_lines=[cand])
+                if mm1 and (keep is None or keep(mm1[0])):
+                    c = cand
+                    break
             case = ctx.shrink(st["name"], st["harness"], st["driver"], c, still_bad=keep)
             mm2 = ctx.stream(st["name"] + "-shrink", st["harness"], st["driver"], replay_lines=[case])
             if mm2:
